@@ -34,7 +34,13 @@ def sortkey(x):
     return repr(x)
 
 
+_DATETIME = __import__("re").compile(r"^-?\d{4,}-\d\d-\d\dT\d\d:\d\d:\d\d(\.\d+)?(Z|[+-]\d\d:\d\d)?$")
+
+
 def parse_time(text):
+    """xsd:dateTime / ISO 8601 extended format, 'T' separator required"""
+    if not _DATETIME.match(text):
+        raise ValueError("not an xsd:dateTime lexical form: %r" % (text,))
     dt = datetime.datetime.fromisoformat(text.replace("Z", "+00:00") if text.endswith("Z") else text)
     off = dt.utcoffset()
     return ("dt", dt.isoformat(), None if off is None else off.total_seconds())
